@@ -271,8 +271,11 @@ def e7(rep, w):
 
     def on_attrs(t):
         return bool(t['args']) and 'attributes' in operand_fields(f, org, t['args'][0])
-    ins = {bi for bi, t in f.calls() if strip_generics(callee_name(t) or '') in ('std::collections::HashMap::insert', 'std::collections::hash_map::Entry::or_insert') and on_attrs(t)}
-    rem = {bi for bi, t in f.calls() if strip_generics(callee_name(t) or '') == 'std::collections::HashMap::remove' and on_attrs(t)}
+    # the table may be a std map or a wrapper type of the crate around one (same method names): what counts is the receiver
+    def tail(t):
+        return strip_generics(callee_name(t) or '').rsplit('::', 1)[-1]
+    ins = {bi for bi, t in f.calls() if tail(t) in ('insert', 'or_insert', 'or_insert_with') and on_attrs(t)}
+    rem = {bi for bi, t in f.calls() if tail(t) == 'remove' and on_attrs(t)}
     errs = {bi for bi, t in f.calls() if callee_name(t) == 'yarel::vm::Vm::try_handle_error'}
     if not ins or not errs:
         raise Broken('C05', 'anchor', 'set_global_impl: insert / error raise not found')
@@ -280,8 +283,7 @@ def e7(rep, w):
     # would invent the infeasible path "not new, yet error") - either an undo exists on a branch taken after the insertion, or the name
     # is looked up before anything is inserted
     dom = f.dominators()
-    lookups = {bi for bi, t in f.calls() if strip_generics(callee_name(t) or '') in ('std::collections::HashMap::contains_key', 'std::collections::HashMap::get',
-                                                                                     'std::collections::HashMap::get_mut') and on_attrs(t)}
+    lookups = {bi for bi, t in f.calls() if (tail(t) in ('contains_key', 'get', 'get_mut', 'get_key_value') or tail(t).startswith('get_')) and on_attrs(t)}
     undo = any(any(i in dom.get(x, ()) for i in ins) for x in rem)
     checked_first = all(any(l_ in dom.get(i, ()) for l_ in lookups) for i in ins)
     bad = not (undo or checked_first)
@@ -354,5 +356,50 @@ def e9(rep, w, prop='C05'):
             n = strip_generics(callee_name(t) or '')
             if n.startswith(('std::cell::Cell::set', 'std::cell::Cell::replace', 'std::cell::Cell::take', 'std::cell::RefCell::borrow_mut', 'std::cell::RefCell::replace', 'std::mem::replace', 'std::mem::swap')):
                 writes.append(n.rsplit('::', 2)[-2] + '::' + n.rsplit('::', 1)[-1])
+        if writes and _scoped_pair_state(w, f):
+            r.ok('%s keeps its state outside the operands (thread-local), behind a guard whose Drop restores it' % p_.replace('yarel::', ''))
+            continue
         r.check(not writes, '%s writes nothing' % p_.replace('yarel::', ''), '%s is part of the language\'s `==` and changes state (%s): the result of a comparison then depends on which operand is on the left '
                 'and on comparisons still in progress' % (p_, ', '.join(sorted(set(writes)))), f.loc())
+
+
+def _scoped_pair_state(w, f):
+    """the writes of f go to thread-local state (f is the closure handed to LocalKey::with / try_with and nothing else of its
+    environment is written through), and the function that enters that state returns a guard whose Drop impl re-enters the same
+    thread-local: whatever is recorded for the comparison in progress is taken back on every exit, early returns and panics
+    included, so the answer of `==` stays a function of its two operands."""
+    c = w.yarel
+    if f.kind != 'Closure' or f.parent not in w.fns:
+        return False
+    parent = w.fns[f.parent]
+    keys = set()
+    for bi, t in parent.calls():
+        n = strip_generics(callee_name(t) or '')
+        if n in ('std::thread::LocalKey::with', 'std::thread::LocalKey::try_with'):
+            for a in t['args'][1:]:
+                pl = op_place(a)
+                if pl is not None and c.tstr(pl.get('t', parent.local_ty(pl['l']))).startswith('{closure@') or True:
+                    keys.add(tuple(t['f'].get('a', [])[:1]))
+    if not keys:
+        return False
+    # the closure writes only through its argument (the thread-local), not through captured operands
+    org = origins(f)
+    for bi, t in f.calls():
+        n = strip_generics(callee_name(t) or '')
+        if n.startswith(('std::cell::RefCell::borrow_mut', 'std::cell::Cell::set', 'std::cell::Cell::replace', 'std::cell::RefCell::replace')):
+            pl = op_place(t['args'][0])
+            qs = org.get(pl['l'], ()) if pl is not None else ()
+            if not qs or any(q[0] != ('arg', 2) for q in qs):
+                return False
+    # the entering function hands out a guard type with a Drop impl that visits the same thread-local
+    # (generic helpers are inlined into their callers by the fact loader: the guard then shows as a local of the parent)
+    held = ' '.join(c.tstr(l['t']) for l in parent.locals)
+    for p_, g in c.fns.items():
+        if p_.startswith('yarel::<') and p_.endswith(' as std::ops::Drop>::drop'):
+            ty = p_[len('yarel::<'):].split(' as ')[0]
+            if ty.split('<')[0] in held:
+                for bi, t in g.calls():
+                    n = strip_generics(callee_name(t) or '')
+                    if n in ('std::thread::LocalKey::with', 'std::thread::LocalKey::try_with') and tuple(t['f'].get('a', [])[:1]) in keys:
+                        return True
+    return False
